@@ -286,7 +286,7 @@ def main():
         print('HARNESS-ERROR vacuous run: distinct_nontrivial < 2', file=sys.stderr)
         status = 2
     # evidence/ describes /repo; runs against another tree (VERIF_REPO=<scratch worktree>, seeded changes) are filed under scratch/
-    evdir = os.path.join(HERE, 'evidence') if os.path.realpath(os.environ.get('VERIF_REPO') or '/repo') == '/repo' else os.path.join(HERE, 'scratch', 'evidence_other_tree')
+    evdir = os.path.join(HERE, 'evidence') if (os.environ.get('VERIF_REPO') or '/repo').rstrip('/') == '/repo' else os.path.join(HERE, 'scratch', 'evidence_other_tree')
     os.makedirs(evdir, exist_ok=True)
     if not ns.only:
         with open(os.path.join(evdir, pid + '.json'), 'w') as f:
